@@ -197,6 +197,18 @@ func profileMain(args []string) {
 			}
 		}
 	}
+	// durations that are not a whole number of milliseconds (or microseconds), at rates high enough that the
+	// sub-millisecond part is worth whole operations
+	for _, d := range []time.Duration{1500 * time.Microsecond, 250999 * time.Microsecond, 1234567 * time.Nanosecond, 7654321 * time.Nanosecond, 1000999999 * time.Nanosecond} {
+		for _, r := range []int{333300, 7000000, 10000000, 20000000} {
+			specs = append(specs, profSpec{Kind: "const", FromM: r, ToM: r, DurNs: int64(d)})
+		}
+		specs = append(specs,
+			profSpec{Kind: "line", FromM: 0, ToM: 20000000, DurNs: int64(d)},
+			profSpec{Kind: "line", FromM: 20000000, ToM: 1000000, DurNs: int64(d)},
+			profSpec{Kind: "step", FromM: 1000000, ToM: 3000000, Step: 1000, DurNs: int64(d)},
+			profSpec{Kind: "step", FromM: 1500, ToM: 4200, Step: 1, DurNs: int64(d)})
+	}
 	for _, n := range []int{1, 2, 133, 5000} {
 		specs = append(specs, profSpec{Kind: "once", Times: n})
 	}
